@@ -16,7 +16,10 @@ TECHNIQUE = "runtime monitoring: generated Connect / simultaneous() topologies; 
 KLASS_EXCL = "simultaneous:ends_share_exclusive_method_through_chain"
 
 
-def gen(rnd, idx):
+def gen(rnd, idx, excl_witness=False):
+    if excl_witness:
+        # stored witness of the open finding: writer and reader at the two ends of a Connect chain call one *exclusive* method
+        return {"rev": False, "nw": 1, "nr": 1, "nm": 1, "wx": [[0]], "rx": [[0]], "chain": True, "share": True, "user_sim": False, "exclusive_shared": True}
     D = {}
     D["rev"] = rnd.random() < 0.5
     D["nw"], D["nr"], D["nm"] = rnd.randint(1, 2), rnd.randint(1, 3), rnd.randint(0, 3)
@@ -70,7 +73,7 @@ class Emit(Elaboratable):
             snk_read = c2.read
         ms = [Method(name=f"M{i}") for i in range(D["nm"])]
         for i in range(D["nm"]):
-            @def_method(m, ms[i], ready=self.mr[i], nonexclusive=True)
+            @def_method(m, ms[i], ready=self.mr[i], nonexclusive=not D.get("exclusive_shared", False))
             def _():
                 pass
         self.wt, self.rt = [], []
@@ -109,9 +112,10 @@ class Emit(Elaboratable):
         return m
 
 
-def run_one(rec, rnd, idx, cycles):
-    D = gen(rnd, idx)
+def run_one(rec, rnd, idx, cycles, excl_witness=False):
+    D = gen(rnd, idx, excl_witness)
     case = {"design": idx, "ir": D}
+    klass = KLASS_EXCL if excl_witness else ""
     dm = DependencyManager()
     with DependencyContext(dm):
         e = Emit(D)
@@ -123,7 +127,10 @@ def run_one(rec, rnd, idx, cycles):
         try:
             sim = Simulator(wrap)
         except Exception:
-            rec.check("C13:connected_callers_elaborate", False, case=case, detail=traceback.format_exc()[-1200:])
+            # for the witness of the open finding an elaboration error would be the *right* behaviour
+            rec.check("C13:connected_callers_elaborate", excl_witness, case=case, detail=traceback.format_exc()[-1200:])
+            if excl_witness:
+                rec.note("open finding simultaneous:ends_share_exclusive_method_through_chain: design is now rejected at elaboration (finding no longer reproduces)")
             return
         rec.check("C13:connected_callers_elaborate", True)
         sim.add_clock(1e-6)
@@ -144,12 +151,12 @@ def run_one(rec, rnd, idx, cycles):
                 rec.count("cycles")
                 det = {"cycle": cyc, "writers_ready": [ctx.get(s) for s in e.wr], "readers_ready": [ctx.get(s) for s in e.rr], "other_methods_ready": [ctx.get(s) for s in e.mr],
                        "writers_run": wrun, "readers_run": rrun, "connect_write_run": cw, "connect_read_run": cr}
-                rec.check("C13:connect_read_and_write_run_in_exactly_the_same_cycles", cw == cr, case=case, detail=det)
+                rec.check("C13:connect_read_and_write_run_in_exactly_the_same_cycles", cw == cr, klass=klass, case=case, detail=det)
                 if D["chain"]:
                     w2, r2 = ctx.get(e.c2.write.run), ctx.get(e.c2.read.run)
-                    rec.check("C13:connect_read_and_write_run_in_exactly_the_same_cycles", w2 == r2, case=case, detail=dict(det, second_connect=[w2, r2]))
-                    rec.check("C13:chained_connects_transfer_together", w2 == cw, case=case, detail=dict(det, second_connect=[w2, r2]))
-                rec.check("C13:one_writer_per_transfer_and_one_reader", sum(wrun) == sum(rrun) and sum(wrun) <= 1, case=case, detail=det)
+                    rec.check("C13:connect_read_and_write_run_in_exactly_the_same_cycles", w2 == r2, klass=klass, case=case, detail=dict(det, second_connect=[w2, r2]))
+                    rec.check("C13:chained_connects_transfer_together", w2 == cw, klass=klass, case=case, detail=dict(det, second_connect=[w2, r2]))
+                rec.check("C13:one_writer_per_transfer_and_one_reader", sum(wrun) == sum(rrun) and sum(wrun) <= 1, klass=klass, case=case, detail=det)
                 if any(wrun) and sum(wrun) == 1 and sum(rrun) == 1:
                     rec.count("transfers")
                     wi, ri = wrun.index(1), rrun.index(1)
@@ -186,6 +193,9 @@ def shards(tier, seed):
 
 
 def run_shard(spec, rec):
+    if spec.get("witness") == "excl_share":
+        run_one(rec, random.Random("C13:witness"), -1, 200, excl_witness=True)
+        return
     for i in range(spec["first"], spec["first"] + spec["n"]):
         rnd = random.Random(f"C13:{spec['seed']}:{i}")
         try:
